@@ -16,6 +16,7 @@ RULE = ('the C01 byte space (every opcode cell x 256 ModRM x SIB/filler classes;
         '32 valuations), no two assignments write the same register or overlapping memory. A case = the byte string; non-trivial = it was lifted and checked.')
 RULE += ' Round 6: address-rule keys carry the operand size (a32+o16, a16+o16).'
 RULE += ' Round 7: the count grid of C01 (all 256 immediates on shift / rotate / double-shift / bit-test forms, with and without 66).'
+RULE += ' Round 10: the one-byte and 0F maps are also decoded for a 16-bit code segment (attrib opmode/admode u16; prefixes none, 66, 67, 66 67; reference: objdump -M i8086), lifted and type-checked (keys cs16:...).'
 ASSUMPTIONS = ['irsem.typecheck encodes the typing rules of the statement', '0/1-valuedness of flag sources is decided on 32 valuations (uninterpreted operators get the benefit of the doubt)']
 
 
@@ -112,12 +113,14 @@ def check_list(ins, affs):
     return out
 
 
-def analyse(sh, items):
+def analyse(sh, items, cs16=False):
     from miasmx.arch.ia32_arch import x86mnemo
+    from miasmx.arch.ia32_reg import x86_afs
+    KP = 'cs16:' if cs16 else ''
     dec = []
     for b, cls in items:
         try:
-            ins = x86mnemo.dis(b)
+            ins = x86mnemo.dis(b, {'opmode': x86_afs.u16, 'admode': x86_afs.u16}) if cs16 else x86mnemo.dis(b)
         except Exception:
             continue
         if ins is None or not liftable(ins.m.name):
@@ -125,7 +128,7 @@ def analyse(sh, items):
         dec.append((b, cls, ins))
     if not dec:
         return
-    ref = gnuref.objdump([d[0] for d in dec])
+    ref = gnuref.objdump([d[0] for d in dec], syntax='intel,i8086' if cs16 else 'intel')
     for (b, cls, ins), (rl, rt) in zip(dec, ref):
         # the statement is about what miasmX decodes "under operand-size and address-size prefixes": an operand/address-size
         # prefix the reference prints as a stand-alone data16/addr16 token (it has no effect on e.g. int, hlt, jcc rel8) is
@@ -135,18 +138,20 @@ def analyse(sh, items):
             sh.counters['outside_quantifier_or_length_mismatch(C01)'] += 1
             continue
         mname = ins.m.name
-        opm = 'o16' if 0x66 in ins.prefix else 'o32'
-        sh.case(b[:rl], True, cls='%s/%s/mod%d' % (mname, opm, cls[2]))
+        opm = 'o16' if (0x66 in ins.prefix) != cs16 else 'o32'
+        sh.case((KP, b[:rl]) if cs16 else b[:rl], True, cls='%s%s/%s/mod%d' % (KP, mname, opm, cls[2]))
         wit = {'bytes': b.hex()}
+        if cs16:
+            wit['cs16'] = True
         try:
             affs = lift(ins)
         except RecursionError:
-            sh.violation('%s/%s/lift-raises:RecursionError' % (mname, opm), 'lifting %s (%s)' % (b[:rl].hex(), rt), wit)
+            sh.violation(KP + '%s/%s/lift-raises:RecursionError' % (mname, opm), 'lifting %s (%s)' % (b[:rl].hex(), rt), wit)
             continue
         except Exception as e:
             msg = re.sub(r"'[^']*'", "'_'", str(e))
             msg = re.sub(r'0x[0-9a-fA-F]+|\d+', 'N', msg)[:40]
-            sh.violation('%s/%s/lift-raises:%s:%s' % (mname, opm, type(e).__name__, msg), 'lifting %s (%s) raised %r' % (b[:rl].hex(), rt, e), wit)
+            sh.violation(KP + '%s/%s/lift-raises:%s:%s' % (mname, opm, type(e).__name__, msg), 'lifting %s (%s) raised %r' % (b[:rl].hex(), rt, e), wit)
             continue
         probs = check_list(ins, affs)
         if len(sh.samples) < 3:
@@ -155,7 +160,7 @@ def analyse(sh, items):
         for rule, loc, detail in probs:
             if loc == 'ADDR':
                 scaled = '*' in rt
-                key = 'ADDR/%s%s/%s/%s' % ('a16' if 0x67 in ins.prefix else 'a32', '+o16' if 0x66 in ins.prefix else '', 'scaled' if scaled else 'unscaled', rule)
+                key = 'ADDR/%s%s/%s/%s' % ('a16' if (0x67 in ins.prefix) != cs16 else 'a32', '+o16' if (0x66 in ins.prefix) != cs16 else '', 'scaled' if scaled else 'unscaled', rule)
                 if '#' in mname or mname in ('movq', 'pmovmskb'):
                     key += '/mmx-sse-operand'
                 elif mname in ('les', 'lds', 'lfs', 'lgs', 'lss'):
@@ -174,10 +179,11 @@ def analyse(sh, items):
                 if re.match(r'^j(n?[oszpbl]|n?[abgl]e|[abgl]|n?c|e|ne|z|nz|p[eo])$', mname):
                     fam = 'jcc'
                 key = '%s/%s/%s/%s' % (fam, opm, rule, loc)
+            key = KP + key
             if key in seen:
                 continue
             seen.add(key)
-            sh.violation(key, 'bytes %s (%s): %s' % (b[:rl].hex(), rt, detail), wit)
+            sh.violation(key, '%sbytes %s (%s): %s' % ('decoded for a 16-bit code segment, ' if cs16 else '', b[:rl].hex(), rt, detail), wit)
 
 
 def shards(tier, seed):
@@ -187,6 +193,7 @@ def shards(tier, seed):
     out += [('cells', 1, i, 32) for i in range(0, len(cl2), 32)]
     out += [('prefixes', 0, i, 32) for i in range(0, len(cl), 32)]
     out += [('counts', 0, 0, 0)]
+    out += [('cs16', 0, i, 16) for i in range(0, len(cl), 16)]
     return out
 
 
@@ -197,6 +204,14 @@ def run_shard(shard, tier, seed):
     items = []
     if kind == 'counts':
         items = list(x86space.count_grid(tier))
+    elif kind == 'cs16':
+        for cell in cl:
+            for b, cls in x86space.strings_for_cell(cell, 'quick', seed, prefixes=x86space.STD_PREFIXES + [b'\x67', b'\x66\x67'], modrms=None if tier != 'quick' else tuple(range(0, 256, 5)) + (0xc0, 0xc1, 0xd8, 0x06, 0x46, 0x86),
+                                                    sibs=x86space.SIB_QUICK[:2], nfill=0):
+                items.append((b, cls))
+        for k in range(0, len(items), 20000):
+            analyse(sh, items[k:k + 20000], cs16=True)
+        return sh
     elif kind == 'cells':
         for cell in cl:
             for b, cls in x86space.strings_for_cell(cell, tier, seed, prefixes=x86space.STD_PREFIXES,
@@ -217,5 +232,5 @@ def run_shard(shard, tier, seed):
 def replay(w):
     sh = common.Shard()
     b = bytes.fromhex(w['bytes'])
-    analyse(sh, [(b, ((9, 9), '', (b[1] >> 6) if len(b) > 1 else 0, 0, None, 'replay'))])
+    analyse(sh, [(b, ((9, 9), '', (b[1] >> 6) if len(b) > 1 else 0, 0, None, 'replay'))], cs16=bool(w.get('cs16')))
     return [(v['key'], v['detail']) for v in sh.violations]
